@@ -51,6 +51,15 @@ func (o *Out) Emit(class, prop, op, expect string) {
 	o.Stats[prop+"."+class]++
 }
 
+// EmitTimer writes a timer op whose model answer ("expiry <ms>") must be within tol ms of the measured
+// expiry; the comparison is numeric (see checklib: class "near").
+func (o *Out) EmitTimer(op string, measuredMs, tolMs float64) {
+	fmt.Fprintln(o.ops, op)
+	fmt.Fprintf(o.exp, "near C08 %.2f %.2f\n", measuredMs, tolMs)
+	o.N++
+	o.Stats["C08.near"]++
+}
+
 func (o *Out) Count(key string) { o.Stats[key]++ }
 
 // Nontrivial records a distinct non-trivial case for a property.
